@@ -279,7 +279,8 @@ var modes = []string{"full", "min", "full+noise", "min+noise"}
 func optsFor(mode string, next func(int) int) render.Opts {
 	o := render.Opts{FullParen: strings.HasPrefix(mode, "full")}
 	if strings.Contains(mode, "+noise") {
-		o.Noise = &render.Noise{Next: next}
+		// block comments are part of what cedar-go's tokenizer accepts as layout
+		o.Noise = &render.Noise{Next: next, Block: true}
 	}
 	if strings.Contains(mode, "+strkeys") {
 		o.StringKeys = true
